@@ -57,6 +57,18 @@ from spyne.model.primitive.datetime import TIME_PATTERN, DATE_PATTERN, \
 from spyne.util.cdict import cdict
 
 
+def _text_of(prot, value):
+    """MessagePack hands text over as bytes (it is what we write, too)."""
+
+    if isinstance(value, six.binary_type):
+        try:
+            return value.decode(prot.default_string_encoding)
+        except UnicodeDecodeError as e:
+            raise ValidationError(value, "%%r: %r" % (e,))
+
+    return value
+
+
 def _is_native(value, native_type, excluded=()):
     """Dict documents (YAML timestamps, MessagePack) hand over native values
     where the text deserializers expect text: an instance of the native type
@@ -368,6 +380,7 @@ class InProtocolBase(ProtocolMixin):
         return retval
 
     def decimal_from_unicode(self, cls, string):
+        string = _text_of(self, string)
         cls_attrs = self.get_cls_attrs(cls)
         if isinstance(string, six.string_types) and \
                                     cls_attrs.max_str_len is not None and \
@@ -418,6 +431,7 @@ class InProtocolBase(ProtocolMixin):
     def time_from_unicode(self, cls, string):
         """Expects ISO formatted times."""
 
+        string = _text_of(self, string)
         if _is_native(string, time):
             return string
 
@@ -498,6 +512,7 @@ class InProtocolBase(ProtocolMixin):
         return cls.from_bytes(value)
 
     def datetime_from_unicode_iso(self, cls, string):
+        string = _text_of(self, string)
         if _is_native(string, datetime):
             return string
 
@@ -574,6 +589,7 @@ class InProtocolBase(ProtocolMixin):
                                          "%%r: %s" % repr(e).replace("%", "%%"))
 
     def date_from_unicode(self, cls, string):
+        string = _text_of(self, string)
         if _is_native(string, date, excluded=datetime):
             return string
 
@@ -600,6 +616,7 @@ class InProtocolBase(ProtocolMixin):
                                          "%%r: %s" % repr(e).replace("%", "%%"))
 
     def duration_from_unicode(self, cls, string):
+        string = _text_of(self, string)
         if not isinstance(string, six.string_types):
             raise ValidationError(string)
 
